@@ -3,6 +3,7 @@
 set -e
 cd "$(dirname "$0")/harness"
 export CARGO_NET_OFFLINE=true
-cargo build --offline -p rtprops -p pbsupport -p expander 2>&1 | tail -2
+cargo build --offline -p rtprops -p pbsupport -p expander
+(cd /repo && CARGO_TARGET_DIR=/verif/target/bindgen cargo build --offline -p cglue-bindgen 2>&1 | tail -1) 2>&1 | tail -2
 cargo build --offline --release -p rtprops 2>&1 | tail -2
 echo setup done
